@@ -180,3 +180,49 @@
     spec fn conn_events_same(&self, o: &Self, c: ConnectionId) -> bool {
         forall|x: ServiceCookie| #![trigger self.conns@[c].ev(x)] self.conns@[c].ev(x) == o.conns@[c].ev(x)
     }
+
+    // ---- from the weak to the strong invariant -------------------------------------------------------------------------------
+    // If `self` satisfies the weak invariant, has no orphan services, and everything that is left in it was already in `o`
+    // (same owners, same subscriber sets, same connections) where the strong invariant held, then the strong invariant holds in
+    // `self`. Used after the cleanup helpers (remove_service / remove_object), proved on its own.
+    proof fn lemma_strong_preserved(&self, o: &Self)
+        requires
+            o.reg_inv(), self.reg_winv(), self.no_orphans(),
+            self.conns@.dom() =~= o.conns@.dom(),
+            forall|u: ObjectUuid| #![trigger self.objs@.contains_key(u)] self.objs@.contains_key(u) ==> o.objs@.contains_key(u)
+                && self.objs@[u].conn_id == o.objs@[u].conn_id,
+            forall|k: (ObjectUuid, ServiceUuid)| #![trigger self.svcs@.contains_key(k)] self.svcs@.contains_key(k) ==> o.svcs@.contains_key(k)
+                && self.svcs@[k] == o.svcs@[k],
+        ensures
+            self.reg_inv(),
+    {
+        assert forall|u: ObjectUuid| self.objs@.contains_key(u) implies self.conns@.contains_key(self.objs@[u].conn_id) by {
+            assert(o.objs@.contains_key(u));
+        }
+        assert(self.subscribers_connected()) by {
+            assert forall|k: (ObjectUuid, ServiceUuid), e: u32, c: ConnectionId| self.svcs@.contains_key(k) && #[trigger] self.svcs@[k].subs(e).contains(c)
+                implies self.conns@.contains_key(c) by {
+                assert(o.svcs@.contains_key(k)); assert(o.svcs@[k].subs(e).contains(c));
+            }
+            assert forall|k: (ObjectUuid, ServiceUuid), c: ConnectionId| self.svcs@.contains_key(k) && #[trigger] self.svcs@[k].all_events@.contains(c)
+                implies self.conns@.contains_key(c) by {
+                assert(o.svcs@.contains_key(k)); assert(o.svcs@[k].all_events@.contains(c));
+            }
+            assert forall|k: (ObjectUuid, ServiceUuid), c: ConnectionId| self.svcs@.contains_key(k) && #[trigger] self.svcs@[k].subscriptions@.contains(c)
+                implies self.conns@.contains_key(c) by {
+                assert(o.svcs@.contains_key(k)); assert(o.svcs@[k].subscriptions@.contains(c));
+            }
+        }
+    }
+
+    // removing a service cannot create an orphan
+    proof fn lemma_no_orphans_after_remove_service(&self, o: &Self, sc: ServiceCookie)
+        requires
+            o.no_orphans(), self.svc_uuids@ =~= o.svc_uuids@.remove(sc), self.objs@.dom() =~= o.objs@.dom(),
+        ensures
+            self.no_orphans(),
+    {
+        assert forall|x: ServiceCookie| self.svc_uuids@.contains_key(x) implies self.objs@.contains_key(self.svc_uuids@[x].0.uuid) by {
+            assert(o.svc_uuids@.contains_key(x));
+        }
+    }
